@@ -5,8 +5,10 @@ use pallas_network::miniprotocols::Point;
 
 pub struct Hist;
 
+/// The point alphabet: Origin, a block in slot 0 (same `slot_or_default` as Origin), and two
+/// competing blocks (different hashes) for each further slot, as after a slot battle.
 fn pt(i: u64) -> Point {
-    if i == 0 { Point::Origin } else { Point::Specific(i * 10, vec![i as u8; 4]) }
+    if i == 0 { Point::Origin } else { Point::Specific((i / 2) * 10, vec![i as u8; 4]) }
 }
 
 /// compare every observation of the real buffer with the list model
